@@ -165,6 +165,13 @@ func evalC12(c C12Case) *h.Finding {
 		} else {
 			expect("MAIL FROM:<ok@a.example> REQUIRETLS", cfg.RequireTLS && tlsActive, 504, "REQUIRETLS")
 		}
+		// keywords are case-insensitive (RFC 5321 2.4)
+		expect("MAIL FROM:<ok@a.example> smtputf8", cfg.UTF8, 504, "SMTPUTF8 (lower case)")
+		if !(cfg.RequireTLS && !tlsActive) {
+			expect("MAIL FROM:<ok@a.example> RequireTls", cfg.RequireTLS && tlsActive, 504, "REQUIRETLS (mixed case)")
+		}
+		expect("mail from:<ok@a.example> body=binarymime", cfg.BinaryMIME, 504, "BINARYMIME (lower case)")
+		expect("MAIL FROM:<ok@a.example> Ret=Full", cfg.DSN, 504, "DSN (RET, mixed case)")
 		expect("MAIL FROM:<ok@a.example> BODY=BINARYMIME", cfg.BinaryMIME, 504, "BINARYMIME")
 		expect("MAIL FROM:<ok@a.example> RET=FULL", cfg.DSN, 504, "DSN (RET)")
 		expect("MAIL FROM:<ok@a.example> ENVID=abc", cfg.DSN, 504, "DSN (ENVID)")
@@ -235,6 +242,7 @@ func evalC12(c C12Case) *h.Finding {
 		}
 		// AUTH
 		ar := one("AUTH ONE Z29vZA==")
+		arBefore := ar.String()
 		nexts := 0
 		for _, e := range be.Trace() {
 			if e.Kind == "Next" {
@@ -268,6 +276,15 @@ func evalC12(c C12Case) *h.Finding {
 				want := refCaps(c, true)
 				if strings.Join(got, "|") != strings.Join(want, "|") {
 					fail("c12-capabilities", "after STARTTLS %s lists %q, the configuration calls for %q", verb, got, want)
+				}
+				// what the new list advertises is accepted - also AUTH after an AUTH in plaintext: the upgrade
+				// starts a fresh, unauthenticated session
+				for _, w := range want {
+					if strings.HasPrefix(w, "AUTH ") {
+						if ar := one("AUTH ONE Z29vZA=="); ar.Code != 235 {
+							fail("c12-advertised-refused", "after STARTTLS AUTH is advertised but was answered %s (AUTH before the upgrade: %s)", ar.String(), arBefore)
+						}
+					}
 				}
 			}
 		} else if sr.Class() == 2 {
